@@ -39,7 +39,7 @@ var c18Svcs = []string{"s0", "s1", "s2"}
 func c18GenOp(t *rapid.T) c18Op {
 	op := c18Op{Svc: rapid.SampledFrom(c18Svcs).Draw(t, "svc")}
 	op.Op = rapid.SampledFrom([]string{"deploy", "deploy", "rollout-deploy", "rollout-set", "rollout-stop", "pause", "stop", "resume", "remove", "list",
-		"request", "request", "request", "request", "flap", "wait", "getcert", "deploy-bad", "rollout-deploy-bad"}).Draw(t, "op")
+		"request", "request", "request", "request", "flap", "evict", "wait", "getcert", "deploy-bad", "rollout-deploy-bad"}).Draw(t, "op")
 	op.Target = rapid.IntRange(0, 3).Draw(t, "target")
 	switch op.Op {
 	case "request":
@@ -198,6 +198,24 @@ func c18Run(t *testing.T, p c18Plan) (res vfResult) {
 							} else {
 								// the verdict (500) is in, the probe is still busy with the body when whatever comes next happens
 								tg.setProbeScript([]vfProbeStep{{Kind: "status-stall", Status: 500}, {Kind: "status-stall", Status: 500}}, vfProbeStep{Kind: "ok"})
+							}
+						case "evict":
+							// a target fails long enough to leave the rotation of whatever load balancers hold it, and 1-3 requests
+							// per service meet the shrunken (then the regrown) rotation
+							tg := w.target(vfActivePool[op.Target%len(vfActivePool)])
+							tg.setProbeScript([]vfProbeStep{{Kind: "status", Status: 500}, {Kind: "status", Status: 500}, {Kind: "status", Status: 500}}, vfProbeStep{Kind: "ok"})
+							for round := 0; round < 2; round++ {
+								time.Sleep(250 * time.Millisecond)
+								for _, host := range []string{"s0.test", "s1.test"} {
+									for k := 0; k < 1+(op.Target+round)%3; k++ {
+										rp := w.do(h, vfNewRequest("GET", host, "/x", &vfCtl{}, nil))
+										if rp.Panicked != "" && rp.Panicked != "abort" {
+											mu.Lock()
+											panics = append(panics, fmt.Sprintf("worker %d op %d %+v: request after an eviction panicked: %s", wi, oi, op, rp.Panicked))
+											mu.Unlock()
+										}
+									}
+								}
 							}
 						case "wait":
 							time.Sleep(time.Duration(50+op.Target*100) * time.Millisecond)
